@@ -58,7 +58,8 @@ META = {
         "the wrapper unit harness/C11_wrap.c adds only field accessors to the textually included real source",
         "upd_*: the counter is one concrete near-carry value per buffer fill (every counter value is covered by cnt_*); fin_*: one concrete counter "
         "with bits set in every limb per buffer fill (every counter value: flen_*)",
-        "disp_*: the six algorithm families are stubs that record the dispatcher's calls and return symbolic digest bytes; allocator = ledger model",
+        "disp_*: the six algorithm families are stubs that record the dispatcher's calls and return symbolic digest bytes; allocator = ledger "
+        "model (models/alloc.c) whose failure is chosen symbolically at every get_string (disp_*_oomnew: at p_crypto_hash_new)",
         "kat_*: expected digests from Python hashlib (OpenSSL) resp. libgcrypt+nettle for GOST-CryptoPro, spot-checked against RFC 1321 / FIPS 180-4 / FIPS 202 / published GOST vectors",
         "histories: one step from an arbitrary valid context state (buffer prefix = pending bytes, rest arbitrary, counter arbitrary, state arbitrary); "
         "the step post-condition re-establishes that state description, so chunk sequences of any length follow by induction",
@@ -121,7 +122,7 @@ def upd_q(a, l_lo, l_hi, lo=None, hi=None, trim=False):
     whole = (lo == 1 and hi == 2 * blk + 2)
     name = "upd_%s_left%d" % (a, l_lo) + ("" if l_hi == l_lo else "_%d" % l_hi) + ("" if whole else "_len%d_%d" % (lo, hi))
     return Q(name, "harness/C11_update.c", units=[WRAP], models=MODELS,
-             defs=_base(a, ["LEFT_LO=%d" % l_lo, "LEFT_HI=%d" % l_hi, "LEN_LO=%d" % lo, "LEN_HI=%d" % hi] + (["TRIM"] if trim else [])),
+             defs=_base(a), hdefs=["LEFT_LO=%d" % l_lo, "LEFT_HI=%d" % l_hi, "LEN_LO=%d" % lo, "LEN_HI=%d" % hi] + (["TRIM"] if trim else []),
              export_local=True, remove_bodies=_rm(a), unwind=5 * blk + 16, unwindset={ALGS[a][5] + "_update.0": 4},
              object_bits=12, flags=_flags(a), funcs=[ALGS[a][5] + "_update"], timeout=1800,
              bounds={"algorithm": a, "pending_bytes": "every value in %d..%d" % (l_lo, l_hi),
@@ -156,8 +157,9 @@ def upd_chunks(a, lefts, per_query, trim=False):
 
 def cnt_q(a, huge=False, kf=None):
     blk = ALGS[a][2]
-    defs = _base(a, ["CNT", "C11_OWN_MEMCPY"] + (["HUGE"] if huge else []) + (["KF_DEMO"] if kf else []))
-    return Q(("huge_cnt_%s" if huge else "cnt_%s") % a, "harness/C11_update.c", units=[WRAP], models=MODELS, defs=defs,
+    hdefs = ["CNT"] + (["HUGE"] if huge else []) + (["KF_DEMO"] if kf else [])
+    return Q(("huge_cnt_%s" if huge else "cnt_%s") % a, "harness/C11_update.c", units=[WRAP], models=MODELS,
+             defs=_base(a, ["C11_OWN_MEMCPY"]), hdefs=hdefs,
              export_local=True, remove_bodies=_rm(a), unwind=5 * blk + 16, unwindset={ALGS[a][5] + "_update.0": 3 if huge else 4},
              flags=(["--no-unwinding-assertions"] if huge else []), unwind_assert=not huge, kf=kf,
              funcs=[ALGS[a][5] + "_update"], timeout=900,
@@ -168,8 +170,8 @@ def cnt_q(a, huge=False, kf=None):
 
 def huge_q(a, left, kf=None):
     blk = ALGS[a][2]
-    defs = _base(a, ["LEFT=%d" % left, "HUGE"] + (["KF_DEMO"] if kf else []))
-    return Q("huge_%s_left%d" % (a, left), "harness/C11_update.c", units=[WRAP], models=MODELS, defs=defs,
+    hdefs = ["LEFT=%d" % left, "HUGE"] + (["KF_DEMO"] if kf else [])
+    return Q("huge_%s_left%d" % (a, left), "harness/C11_update.c", units=[WRAP], models=MODELS, defs=_base(a), hdefs=hdefs,
              export_local=True, remove_bodies=_rm(a), unwind=6 * blk + 16, unwindset={ALGS[a][5] + "_update.0": 3},
              flags=["--no-unwinding-assertions"] + _flags(a), unwind_assert=False, object_bits=12, kf=kf,
              funcs=[ALGS[a][5] + "_update"], timeout=900,
@@ -180,7 +182,7 @@ def huge_q(a, left, kf=None):
 def fin_q(a, lo, hi):
     blk = ALGS[a][2]
     return Q("fin_%s_%d_%d" % (a, lo, hi), "harness/C11_finish.c", units=[WRAP], models=MODELS,
-             defs=_base(a, ["LEFT_LO=%d" % lo, "LEFT_HI=%d" % hi]), export_local=True, remove_bodies=_rm(a),
+             defs=_base(a), hdefs=["LEFT_LO=%d" % lo, "LEFT_HI=%d" % hi], export_local=True, remove_bodies=_rm(a),
              unwind=4 * blk + 16, unwindset={ALGS[a][5] + "_update.0": 3}, object_bits=12, flags=_flags(a),
              funcs=[ALGS[a][5] + "_finish", ALGS[a][5] + "_digest", ALGS[a][5] + "_update"], timeout=1500,
              bounds={"algorithm": a, "buffer_fill": "every value in %d..%d" % (lo, hi - 1), "content": "symbolic bytes",
@@ -189,7 +191,7 @@ def fin_q(a, lo, hi):
 
 def flen_q(a):
     blk = ALGS[a][2]
-    return Q("flen_%s" % a, "harness/C11_finish.c", units=[WRAP], models=MODELS, defs=_base(a, ["CNT", "C11_OWN_MEMCPY"]),
+    return Q("flen_%s" % a, "harness/C11_finish.c", units=[WRAP], models=MODELS, defs=_base(a, ["C11_OWN_MEMCPY"]), hdefs=["CNT"],
              export_local=True, remove_bodies=_rm(a), unwind=4 * blk + 16, unwindset={ALGS[a][5] + "_update.0": 3},
              funcs=[ALGS[a][5] + "_finish"], timeout=900,
              bounds={"algorithm": a, "counter": "every value of the counter width", "memcpy": "abstracted"})
@@ -213,21 +215,23 @@ ALGUNITS = ["src/pcryptohash.c", "src/pcryptohash-md5.c", "src/pcryptohash-sha1.
 
 def kat_q(a):
     t = ALGS[a][6]
-    return Q("kat_%s" % a, "harness/C11_kat.c", units=ALGUNITS, models=ALLOC, defs=["TYPE=%d" % t], unwind=300, object_bits=12,
+    return Q("kat_%s" % a, "harness/C11_kat.c", units=ALGUNITS, models=ALLOC, hdefs=["TYPE=%d" % t], unwind=300, object_bits=12,
              flags=["--max-field-sensitivity-array-size", "256"], timeout=900,
              funcs=["p_crypto_hash_new", "p_crypto_hash_update", "p_crypto_hash_reset", "p_crypto_hash_get_string", "p_crypto_hash_get_digest",
                     ALGS[a][4].split("_c_")[1]],
              bounds={"type": a, "messages": "7 concrete messages (empty, abc, 448/896-bit FIPS, block-1, block, block+1 bytes), one 2-chunk split each"})
 
 
-def disp_q(t, nops):
-    return Q("disp_type%s_ops%d" % ("_invalid" if t is None else str(t), nops), "harness/C11_dispatch.c",
-             units=["src/pcryptohash.c", "src/pmem.c"], models=ALLOC, defs=["NOPS=%d" % nops] + ([] if t is None else ["TYPE=%d" % t]),
+def disp_q(t, nops, oomnew=False):
+    return Q("disp_type%s_%s" % ("_invalid" if t is None else str(t), "oomnew" if oomnew else "ops%d" % nops), "harness/C11_dispatch.c",
+             units=["src/pcryptohash.c", "src/pmem.c"], models=ALLOC,
+             hdefs=["NOPS=%d" % nops] + ([] if t is None else ["TYPE=%d" % t]) + (["OOM_NEW"] if oomnew else []),
              unwind=70, timeout=900,
              funcs=["p_crypto_hash_new", "p_crypto_hash_update", "p_crypto_hash_reset", "p_crypto_hash_get_string", "p_crypto_hash_get_digest",
                     "p_crypto_hash_get_length", "p_crypto_hash_get_type", "p_crypto_hash_free", "pp_crypto_hash_digest_to_hex"],
              bounds={"type": "every int outside 0..10" if t is None else t, "calls": nops,
-                     "alphabet": "update(len any, data NULL or not) / reset / get_string / get_digest(buffer length 0..65)",
+                     "alphabet": "update(len any, data NULL or not) / reset / get_string (its allocation fails or not, symbolic per call) / "
+                                 "get_digest(buffer length 0..65)",
                      "digest_bytes": "symbolic"})
 
 
@@ -283,11 +287,11 @@ def queries(tier):
                     bounds={"operands": "pairs with a limb pair 0xFFFFFFFF/0xFFFFFFFF and carry-in 1"}))
     # ---- (c) Keccak-f[1600] == FIPS 202 for every state (the one compression function whose miter the solver decides) ----
     SP = P + "sha3_c_pp_crypto_hash_sha3_"
-    qs.append(Q("keccak_round", "harness/C11_keccak.c", units=[WRAP], models=MODELS, defs=["ALG=5", "ROUND", "VARIANT=256"], export_local=True,
+    qs.append(Q("keccak_round", "harness/C11_keccak.c", units=[WRAP], models=MODELS, defs=["ALG=5", "VARIANT=256"], hdefs=["ROUND"], export_local=True,
                 unwind=30, funcs=["pp_crypto_hash_sha3_keccak_theta", "pp_crypto_hash_sha3_keccak_rho_pi", "pp_crypto_hash_sha3_keccak_chi"],
                 timeout=900, bounds={"state": "all 2^1600 values", "rounds": "one round without iota (schedule: keccak_sched_*)"}))
     for v in ([256, 512] if quick else [224, 256, 384, 512]):
-        qs.append(Q("keccak_sched_%d" % v, "harness/C11_keccak.c", units=[WRAP], models=MODELS, defs=["ALG=5", "SCHED", "VARIANT=%d" % v],
+        qs.append(Q("keccak_sched_%d" % v, "harness/C11_keccak.c", units=[WRAP], models=MODELS, defs=["ALG=5", "VARIANT=%d" % v], hdefs=["SCHED"],
                     export_local=True, remove_bodies=[SP + "keccak_theta", SP + "keccak_rho_pi", SP + "keccak_chi"], unwind=30,
                     funcs=["pp_crypto_hash_sha3_process", "pp_crypto_hash_sha3_keccak_permutate"], timeout=600,
                     bounds={"state_and_block": "symbolic", "step_functions": "recording stubs (decided by keccak_round)"}))
@@ -295,6 +299,7 @@ def queries(tier):
     nops = 4 if quick else 6
     qs.append(disp_q(None, nops))
     qs += [disp_q(t, nops) for t in range(11)]
+    qs += [disp_q(t, nops, oomnew=True) for t in ([0] if quick else range(11))]
     # ---- (c) known-answer vectors through the encoding ----------------------------------------------------------
     qs += [kat_q(a) for a in ALGS]
     return qs
